@@ -42,6 +42,15 @@ CHECKS = {
               "C17_designates (element v, wholly inside the array), C17_aborts, C17_multi (row-major designation for multi-dimensional arrays). Tied to the code by ~33k ops: "
               "application- and sandbox-memory arrays, 3 element types, lengths 1..16, 14 index types, plain/tainted/tainted_volatile indices, boundary and aliasing values, 2-D/3-D shapes, canaries."),
         note=NOTE + "bool index types do not compile and are excluded."),
+    "C15": dict(
+        engine="tokens", design_ref="DESIGN.md §6 C15",
+        technique="Lean 4 invariant + induction over all operation histories (structural recursion on the scan span) + lock-step exploration of the 8-bit table + owner histories",
+        text=("Proof: C15_token (token non-zero, <= limit, free when issued, table updated at exactly that token, invariant kept), C15_exhausted (abort iff every token 1..max is in use), "
+              "C15_lookup/C15_remove_unknown, C15_inv (invariant in every reachable state: induction over arbitrary histories, every limit, every token width with max+1 < 2^bits), "
+              "C15_owner_move / C15_owner_release on an owner-level state machine (uniqueness of ownership as an invariant). Tied to the code by complete lock-step exploration of the "
+              "model's reachable states for limits 1..5/6 on app_pointer_map<uint8_t>, random histories on 8/32/64-bit tables, and owner histories on vsbx and noop. "
+              "One genuine defect found and repaired (fix: 2f7f77d, move-assignment onto a live owner leaked its token)."),
+        note=NOTE + "The table's std::map is modelled as a total function Nat -> Option Nat."),
 }
 
 TODO_REASON = "check not built yet in this round (design in DESIGN.md §6); will be claimed when its theorems and correspondence check exist"
